@@ -157,12 +157,9 @@ theorem toMat_compose (dbg : Bool) {X Y : SE2 K} (hX : Valid X) (hY : Valid Y) :
     fin_cases i <;> fin_cases j <;>
       simp [toMat, transform, M3.toMatrix, Matrix.mul_apply, Fin.sum_univ_three] <;> ring
 
-/-- the arithmetic of `inverse` (which goes through `atan2`, `cos`, `sin`) on a valid element. -/
-theorem inverseRaw_eq {X : SE2 K} (hX : Valid X) :
-    inverseRaw X = ⟨-X.x * X.re - X.y * X.im, X.x * X.im - X.y * X.re, X.re, -X.im⟩ := by
-  unfold Valid at hX
-  simp [inverseRaw, angle, LawfulTransc.cos_neg, LawfulTransc.sin_neg,
-    LawfulTransc.cos_atan2 _ _ hX, LawfulTransc.sin_atan2 _ _ hX]
+/-- the arithmetic of `inverse` on a valid element. -/
+theorem inverseRaw_eq {X : SE2 K} (_hX : Valid X) :
+    inverseRaw X = ⟨-X.x * X.re - X.y * X.im, X.x * X.im - X.y * X.re, X.re, -X.im⟩ := rfl
 
 /-- **C01/SE2 inverse**. -/
 theorem toMat_inverse (dbg : Bool) {X : SE2 K} (hX : Valid X) :
